@@ -28,6 +28,7 @@ def main():
     ap.add_argument('--tier', default='quick')
     ap.add_argument('--count', type=int, default=1)
     ap.add_argument('--seed', default='1')
+    ap.add_argument('--keep', default=None, help='copy replays/<ID> here before cleaning')
     a = ap.parse_args()
     tmp = tempfile.mkdtemp(prefix='mut-')
     try:
@@ -67,6 +68,8 @@ def main():
             rc_all.append(r.returncode)
         return 0 if all(rc == 1 for rc in rc_all) else 1
     finally:
+        if a.keep and os.path.isdir(os.path.join(HERE, 'replays')):
+            shutil.copytree(os.path.join(HERE, 'replays'), a.keep, dirs_exist_ok=True)
         shutil.rmtree(tmp, ignore_errors=True)
         shutil.rmtree(os.path.join(HERE, 'replays'), ignore_errors=True)
 
